@@ -113,6 +113,15 @@ class Mock:
                 pass
 
 
+def chunked(body, n=3):
+    size = max(1, len(body) // n)
+    out = b"HTTP/1.1 200 OK\r\ncontent-type: application/json\r\ntransfer-encoding: chunked\r\nconnection: close\r\n\r\n"
+    for i in range(0, len(body), size):
+        part = body[i:i + size]
+        out += b"%x\r\n" % len(part) + part + b"\r\n"
+    return out + b"0\r\n\r\n"
+
+
 def header_model(s):
     """The property's rule: split at the first colon, trim; refuse without colon / with empty or blank-containing name."""
     if ":" not in s:
@@ -176,6 +185,17 @@ def run(tier):
         ("200 garbage", {"kind": "reply", "status": 200, "body": b"<html>not json</html>"}),
         ("200 empty body", {"kind": "reply", "status": 200, "body": b""}),
         ("200 truncated json", {"kind": "reply", "status": 200, "body": schemas["small"][1].encode()[:-7]}),
+        # bodies that begin with a complete JSON value but are not a JSON document
+        ("200 json followed by garbage", {"kind": "reply", "status": 200, "body": schemas["small"][1].encode() + b"\n<html>proxy banner</html>"}),
+        ("200 two json values", {"kind": "reply", "status": 200, "body": b"{}{}"}),
+        ("200 garbage that starts like a number", {"kind": "reply", "status": 200, "body": b"123abc"}),
+        ("200 garbage that starts like null", {"kind": "reply", "status": 200, "body": b"null oops"}),
+        ("200 complete json, content-length promises more", {"kind": "reply", "status": 200, "body": b"", "raw": (
+            "HTTP/1.1 200 OK\r\ncontent-type: application/json\r\ncontent-length: %d\r\nconnection: close\r\n\r\n"
+            % (len(schemas["small"][1].encode()) + 64)).encode() + schemas["small"][1].encode()}),
+        # ... and two that are JSON documents in an unusual transport form
+        ("200 small schema, trailing whitespace", {"kind": "reply", "status": 200, "body": schemas["small"][1].encode() + b" \r\n\t\n", "schema": "small"}),
+        ("200 small schema, chunked", {"kind": "reply", "status": 200, "body": b"", "schema": "small", "raw": chunked(schemas["small"][1].encode())}),
         ("204 no content", {"kind": "reply", "status": 204, "body": b""}),
         ("400 json body", {"kind": "reply", "status": 400, "body": b'{"errors":[{"message":"bad"}]}'}),
         ("401 text body", {"kind": "reply", "status": 401, "body": b"unauthorized", "ctype": "text/plain"}),
@@ -352,7 +372,7 @@ def run(tier):
     cov = {
         "evaluations": len(cases), "distinct_nontrivial": len(distinct),
         "rule": "request model: {is-one-of} x {specify-by-url} x {authorization} x {no headers, two headers}; every header string of "
-                "the alphabet 5 names x 3 separators x 4 values (and 4 pairs) with an existing output file; behaviours: 19 scripted "
+                "the alphabet 5 names x 3 separators x 4 values (and 4 pairs) with an existing output file; behaviours: 26 scripted "
                 "replies x {stdout, new file, existing file}; connection closed after k bytes for every k of a 200 reply with "
                 "content-length (%s). distinct = (flags, headers, output placement, server behaviour)" %
                 ("output = existing file" if tier == "quick" else "all three output placements"),
